@@ -190,6 +190,8 @@ CONFIGS = {
     'gcc20-tsan': ('g++', ['-std=c++20', '-O1', '-g', '-fsanitize=thread']),
     'gcc23-O0-assert-mdspandebug': ('g++', ['-std=c++23', '-O0', '-D_MDSPAN_DEBUG']),
     'clang14-O0-assert': ('clang++-14', ['-std=c++14', '-O0']),
+    'gcc14-ubsan': ('g++', ['-std=c++14', '-O1', '-fsanitize=undefined', '-fsanitize-undefined-trap-on-error']),
+    'clang14-ubsan': ('clang++-14', ['-std=c++14', '-O1', '-fsanitize=undefined', '-fsanitize-trap=undefined']),
     'gcc14-O2-ndebug': ('g++', ['-std=c++14', '-O2', '-DNDEBUG']),
     'gcc23-paren-bracket': ('g++', ['-std=c++23', '-O0', '-DMDSPAN_USE_PAREN_OPERATOR=1', '-DMDSPAN_USE_BRACKET_OPERATOR=1']),
 }
